@@ -157,10 +157,7 @@ impl Write for FaultyWriter {
 }
 impl Seek for FaultyWriter {
     fn seek(&mut self, s: SeekFrom) -> io::Result<u64> {
-        if matches!(s, SeekFrom::Current(0)) {
-            // stream_position(): a pure query, not a fault point
-            return self.inner.seek(s);
-        }
+        // stream_position() is a seek call like any other and may fail too
         self.tick("seek")?;
         self.inner.seek(s)
     }
